@@ -242,11 +242,11 @@ Theorem split_concat iri : fst (split_iri iri) ++ snd (split_iri iri) = iri.
 Proof.
   unfold split_iri.
   pose proof (span_app (fun c => negb (brk c)) (rev iri)) as H1.
-  destruct (span (fun c => negb (brk c)) (rev iri)) as [suf_rev pre_rev]. simpl in H1.
-  destruct pre_rev as [|b pre']; [simpl; apply app_nil_r|].
+  destruct (span (fun c => negb (brk c)) (rev iri)) as [suf_rev pre_rev]. cbn [fst snd] in H1.
+  destruct pre_rev as [|b pre']; [cbn [fst snd]; apply app_nil_r|].
   pose proof (span_app (fun c => negb (nc_start c)) (b :: rev suf_rev)) as H2.
-  destruct (span (fun c => negb (nc_start c)) (b :: rev suf_rev)) as [skip loc]. simpl in H2.
-  destruct loc as [|c loc']; [simpl; apply app_nil_r|].
+  destruct (span (fun c => negb (nc_start c)) (b :: rev suf_rev)) as [skip loc]. cbn [fst snd] in H2.
+  destruct loc as [|c loc']; [cbn [fst snd]; apply app_nil_r|].
   cbn [fst snd]. rewrite <- app_assoc, H2.
   rewrite <- (rev_involutive iri), <- H1, rev_app_distr. simpl. rewrite <- app_assoc. reflexivity.
 Qed.
@@ -257,7 +257,7 @@ Proof.
   unfold split_iri.
   pose proof (span_fst_all (fun c => negb (brk c)) (rev iri)) as Hall.
   pose proof (span_snd_head (fun c => negb (brk c)) (rev iri)) as Hhd.
-  destruct (span (fun c => negb (brk c)) (rev iri)) as [suf_rev pre_rev]. simpl in Hall, Hhd.
+  destruct (span (fun c => negb (brk c)) (rev iri)) as [suf_rev pre_rev]. cbn [fst snd] in Hall, Hhd.
   destruct pre_rev as [|b pre']; [left; reflexivity|].
   specialize (Hhd b pre' eq_refl). apply negb_false_iff in Hhd.
   assert (Hb : negb (nc_start b) = true) by (rewrite (brk_not_start b Hhd); reflexivity).
@@ -265,7 +265,7 @@ Proof.
   pose proof (span_snd_head (fun c => negb (nc_start c)) (rev suf_rev)) as Hhd2.
   pose proof (forallb_span_snd (fun c => negb (brk c)) (fun c => negb (nc_start c)) (rev suf_rev)) as Hsuf.
   rewrite forallb_rev in Hsuf. specialize (Hsuf Hall).
-  destruct (span (fun c => negb (nc_start c)) (rev suf_rev)) as [skip loc]. simpl in Hhd2, Hsuf.
+  destruct (span (fun c => negb (nc_start c)) (rev suf_rev)) as [skip loc]. cbn [fst snd] in Hhd2, Hsuf.
   destruct loc as [|c loc']; [left; reflexivity|]. right. cbn [snd].
   specialize (Hhd2 c loc' eq_refl). apply negb_false_iff in Hhd2.
   unfold nc_start in Hhd2. apply andb_true_iff in Hhd2 as [Hs Hc].
@@ -310,11 +310,11 @@ Proof.
     clear -Ha. rewrite existsb_exists in *. destruct Ha as (x & Hin & Hx). exists x. split.
     - apply in_rev in Hin. rewrite rev_involutive. rewrite rev_involutive in Hin. apply in_rev. rewrite rev_involutive. exact Hin.
     - rewrite Hx. reflexivity. }
-  destruct (span (fun x => negb (brk x)) (rev a)) as [u pre_rev]. simpl in Hne. cbn [fst snd].
+  destruct (span (fun x => negb (brk x)) (rev a)) as [u pre_rev]. cbn [fst snd] in Hne. cbn [fst snd].
   destruct pre_rev as [|b0 pre']; [congruence|].
   pose proof (span_snd_nonempty (fun x => negb (nc_start x)) (b0 :: rev (rev (c :: r) ++ u))) as Hne2.
   destruct (span (fun x => negb (nc_start x)) (b0 :: rev (rev (c :: r) ++ u))) as [skip loc].
-  simpl in Hne2. destruct loc as [|x loc']; [|discriminate].
+  cbn [fst snd] in Hne2. destruct loc as [|x loc']; [|discriminate].
   intros _. apply Hne2; [|reflexivity].
   rewrite rev_app_distr, rev_involutive. cbn [existsb]. rewrite existsb_app. cbn [existsb].
   rewrite Hc. simpl. rewrite !orb_true_r. reflexivity.
